@@ -37,7 +37,8 @@ def main():
     checks = sys.argv[3:] or [pid]
     name = os.path.basename(wt.rstrip("/")).replace("wt-", "")
     bn = os.path.basename(sys.argv[2].rstrip("/"))
-    sid = bn.split("wt-")[-1] if bn.startswith("wt-") else (bn.split("wt2-")[-1] + "b" if bn.startswith("wt2-") else bn)
+    sid = bn.split("wt-")[-1] if bn.startswith("wt-") else (bn.split("wt2-")[-1] + "b" if bn.startswith("wt2-") else
+                                                                  (bn.split("wt3-")[-1] + "c" if bn.startswith("wt3-") else bn))
     patch = os.path.join(wt, "seed.patch")
     if not os.path.isfile(patch) or os.path.getsize(patch) == 0:
         print("no seed.patch in", wt)
